@@ -385,6 +385,12 @@ pub fn replay(w: &mut Worker, p: &Params, trace: &[Event], compare_scratch: bool
   hash_of.insert(0, w.world.blocks[0].block_hash());
   let mut updates = 0;
   let mut last_ok_after_rollback = false;
+  // Set when the implementation's internal bookkeeping (savepoint count, LastSavepointHeight, number of
+  // rollbacks) departs from the model while everything the property speaks about still agrees: from then on
+  // the model's predictions are not used for this trace, only the direct oracles of the property.
+  let mut model_free: Option<String> = None;
+  let mut last_impl_ok = false;
+  let mut last_impl_flagged = false;
   for (step, ev) in trace.iter().enumerate() {
     let before_len = model.node.len();
     let before_next = model.next_id;
@@ -480,13 +486,19 @@ pub fn replay(w: &mut Worker, p: &Params, trace: &[Event], compare_scratch: bool
         }
       }
     }
+    last_impl_ok = got == Outcome::Ok;
+    last_impl_flagged = flagged;
+    if model_free.is_some() {
+      continue;
+    }
     // ---- conformance with the model ----
     let mut diffs = Vec::new();
+    let mut internal = Vec::new();
     if got != mres.outcome {
       diffs.push(format!("outcome impl {got:?} model {:?}", mres.outcome));
     }
     if used != mres.rollbacks {
-      diffs.push(format!("rollbacks impl {used} model {}", mres.rollbacks));
+      internal.push(format!("rollbacks impl {used} model {}", mres.rollbacks));
     }
     if height != model.idx.len() {
       diffs.push(format!("index height impl {height} model {}", model.idx.len()));
@@ -504,21 +516,26 @@ pub fn replay(w: &mut Worker, p: &Params, trace: &[Event], compare_scratch: bool
     match Dump::take(&index) {
       Ok(d) => {
         if d.savepoints.len() != model.saves.len() {
-          diffs.push(format!("persistent savepoints impl {} model {}", d.savepoints.len(), model.saves.len()));
+          internal.push(format!("persistent savepoints impl {} model {}", d.savepoints.len(), model.saves.len()));
         }
         let last = d.statistic(idx::STAT_LAST_SAVEPOINT_HEIGHT);
         if last != model.last {
-          diffs.push(format!("LastSavepointHeight impl {last} model {}", model.last));
+          internal.push(format!("LastSavepointHeight impl {last} model {}", model.last));
         }
       }
       Err(e) => diffs.push(format!("dump failed: {e:#}")),
     }
     if !diffs.is_empty() {
+      diffs.extend(internal);
       return (Some(Mismatch { class: "conformance/model-and-implementation-disagree".into(), what: format!("step {step} ({ev:?}): {}", diffs.join("; ")) }), updates);
+    }
+    if !internal.is_empty() {
+      model_free = Some(format!("step {step} ({ev:?}): {}", internal.join("; ")));
     }
   }
   // after a recovered reorg (or at the end of any trace whose last update was Ok): content equals a from-scratch index
-  if compare_scratch && matches!(trace.last(), Some(Event::Update)) && !model.flagged && model.idx == model.node {
+  let in_sync_and_caught_up = if model_free.is_some() { last_impl_ok && !last_impl_flagged } else { !model.flagged && model.idx == model.node };
+  if compare_scratch && matches!(trace.last(), Some(Event::Update)) && in_sync_and_caught_up {
     let a = match Dump::take(&index) {
       Ok(d) => d.content(),
       Err(e) => return (Some(Mismatch { class: "impl/dump-error".into(), what: format!("{e:#}") }), updates),
@@ -543,6 +560,11 @@ pub fn replay(w: &mut Worker, p: &Params, trace: &[Event], compare_scratch: bool
         updates,
       );
     }
+  }
+  if let Some(what) = model_free {
+    // every oracle of the property held on the implementation, but the abstract machine no longer describes
+    // its bookkeeping: no verdict from the model for this trace (reported as a machinery condition)
+    return (Some(Mismatch { class: "machinery/model-out-of-date/internal-bookkeeping".into(), what: format!("{what}; all direct oracles of the property held for the rest of the trace") }), updates);
   }
   (None, updates)
 }
@@ -652,7 +674,7 @@ pub fn run(ctx: &Ctx) -> Report {
         }
         None => {
           report.violation(
-            "conformance/model-counterexample-not-reproduced",
+            "machinery/model-counterexample-not-reproduced",
             format!("model counterexample {class} ({what}) passes on the implementation: the model misrepresents the code"),
             json!({"interval": p.interval, "max_savepoints": p.max_savepoints, "commit_interval": p.commit_interval, "trace": fmt_trace(trace)}),
           );
